@@ -16,10 +16,10 @@ package main
 //	c02.build <loc> <parent>   : poly.Feature{SequenceLocation: loc} added with Sequence.AddFeature to a
 //	                             Sequence{Sequence: parent}; reply  GetSequence()  BuildLocationString(loc)
 //	c02.batch <width> <nvar> <parent> { <text> <loc>*nvar }*  : c02.parse for every text and c02.build for every
-//	                             structure; reply per group 1+nvar fields, each "ok|v1|v2.." or "panic" (a panic in one
+//	                             structure; reply: "together" | "single" (see below), then per group 1+nvar fields, each "ok|v1|v2.." or "panic" (a panic in one
 //	                             call does not hide the others).  The texts are first parsed as the features of ONE
 //	                             record (one genbank.Parse per batch); if that panics or yields other features each text
-//	                             gets its own record.
+//	                             gets its own record AND the reply starts with "single", which the judge counts as a failure.
 //
 // In the record a location text longer than <width> (GenBank: 58) is wrapped after commas onto continuation
 // lines that start in column 22, as GenBank files do, so that the gluing of continuation lines in getFeatures
@@ -298,7 +298,13 @@ func init() {
 			texts[i] = rest[group*i]
 		}
 		feats, together := c02ParseAll(texts, parent, width)
-		out := make([]string, 0, group*n)
+		out := make([]string, 0, group*n+1)
+		// first reply field: whether the one-record path worked; the judge FAILs on "single"
+		if together {
+			out = append(out, "together")
+		} else {
+			out = append(out, "single")
+		}
 		for i := 0; i < n; i++ {
 			if together {
 				out = append(out, c02Observe(feats[i]))
